@@ -43,26 +43,33 @@ Proof.
   destruct o, o'; simpl in Ho; try contradiction; congruence.
 Qed.
 
+Definition dframe (x : str) (e : cexpr) : list frame := [FVars [] [(x, e)]].
+
+Lemma dead_pair_local x e1 e2 : dead_pair x (dframe x e1) (dframe x e2).
+Proof. split; apply dead_ok_local. Qed.
+
 (* the two programs differ only in the value of a binding the body cannot mention *)
 Theorem dead_local_core : forall x e1 e2 body,
-  builtin_sim_at x e1 e2 ->
+  builtin_sim_at x (dframe x e1) (dframe x e2) ->
   closed (rm x [s_std]) false body ->
   forall fuel c, run_core fuel c (CLocal [(x, e1)] body) = run_core fuel c (CLocal [(x, e2)] body).
 Proof.
   intros x e1 e2 body Hbs Hc fuel c. apply rrel_eq. unfold run_core, run_top.
-  pose proof (run_task_rel x e1 e2 Hbs fuel c) as Hrec.
-  eapply rrel_bind with (Q := vrel x e1 e2).
-  - unfold eval. eapply rrel_bind with (Q := ans_rel x e1 e2).
+  set (d1 := dframe x e1). set (d2 := dframe x e2).
+  pose proof (dead_pair_local x e1 e2) as Hdp. fold d1 d2 in Hdp, Hbs.
+  pose proof (run_task_rel x d1 d2 Hdp Hbs fuel c) as Hrec.
+  eapply rrel_bind with (Q := vrel x d1 d2).
+  - unfold eval. eapply rrel_bind with (Q := ans_rel x d1 d2).
     + unfold call. destruct fuel as [|n]; [split; reflexivity|].
       change (run_task (S n) c (TEval init_env (CLocal [(x, e1)] body)) 0)
-        with ((let* v := eval (FVars [] [(x, e1)] :: init_env) body 0 in ret (AVal v)) c (run_task n c)).
+        with ((let* v := eval (d1 ++ init_env) body 0 in ret (AVal v)) c (run_task n c)).
       change (run_task (S n) c (TEval init_env (CLocal [(x, e2)] body)) 0)
-        with ((let* v := eval (FVars [] [(x, e2)] :: init_env) body 0 in ret (AVal v)) c (run_task n c)).
-      apply (rel2_bind x e1 e2 (vrel x e1 e2) (ans_rel x e1 e2)); [|intros v v' Hv; apply rel2_ret; exact Hv | apply run_task_rel; exact Hbs].
+        with ((let* v := eval (d2 ++ init_env) body 0 in ret (AVal v)) c (run_task n c)).
+      apply (rel2_bind x d1 d2 (vrel x d1 d2) (ans_rel x d1 d2)); [|intros v v' Hv; apply rel2_ret; exact Hv | apply run_task_rel; assumption].
       eapply rel2_eval; [apply ER_dead; apply init_env_rel | exact Hc].
     + intros a a' Ha. apply rel2_as_val; assumption.
   - intros v v' Hv.
-    apply (rel2_bind x e1 e2 eq eq (manifest false v 0) (manifest false v' 0)); [apply rel2_manifest; exact Hv | | exact Hrec].
+    apply (rel2_bind x d1 d2 eq eq (manifest false v 0) (manifest false v' 0)); [apply rel2_manifest; exact Hv | | exact Hrec].
     intros j j' ->. destruct (has_func j'); [apply rel2_kind | apply rel2_ret; reflexivity].
 Qed.
 
@@ -70,7 +77,7 @@ Qed.
    statically fine WITHOUT x in scope (so x is not free in it) — e2 := error "..." included *)
 Theorem dead_local_irrelevant : forall sp xid e1 e2 body,
   id_value xid <> s_std ->
-  builtin_sim_at (id_value xid) (ds_expr false false e1) (ds_expr false false e2) ->
+  builtin_sim_at (id_value xid) (dframe (id_value xid) (ds_expr false false e1)) (dframe (id_value xid) (ds_expr false false e2)) ->
   StaticOK [s_std] false body ->
   forall fuel c, run fuel c (ELocal sp [MkBind xid None e1] body) = run fuel c (ELocal sp [MkBind xid None e2] body).
 Proof.
